@@ -109,6 +109,9 @@ var templateSrc = []struct {
 	{"clu", "i", "closure-returned-from-function", "(let () (defun NAME (n) (lambda (a) (+ a n))) (let ((n ?i)) (funcall (NAME ?i+n) ?i+n)))", 0},
 	{"cln", "i", "closure-outlives-the-call-that-made-its-binding", "(let () (defun NAME (n) (lambda (a) (+ a n))) (funcall (NAME ?i) ?i))", 1},
 	{"clg", "l", "closures-from-one-generator-keep-separate-state", "(let () (defun NAME (n) (let ((x n)) (lambda (a) (setq x (+ x a))))) (let ((f (NAME ?i)) (g (NAME ?i))) (list (funcall f ?i+f&+g&) (funcall g ?i+f&+g&) (funcall f ?i+f&+g&))))", 1},
+	{"clm", "l", "closures-made-by-mapcar-called-afterwards", "(let ((fs (mapcar (lambda (a) (lambda (b) (list a b))) (list ?i ?i)))) (list (funcall (car fs) ?i) (funcall (car (cdr fs)) ?i) (funcall (car fs) ?i)))", 0},
+	{"cld", "l", "closures-made-in-dolist-called-afterwards", "(let ((fs nil)) (dolist (i (list ?i ?i)) (let ((x i)) (setq fs (cons (lambda (b) (setq x (+ x b))) fs)))) (list (funcall (car fs) ?i) (funcall (car (cdr fs)) ?i) (funcall (car fs) ?i)))", 0},
+	{"clr", "i", "closure-made-before-a-recursive-call-used-after-it", "(let () (defun NAME (n) (let ((f (lambda (a) (+ a n)))) (if (= n 0) (funcall f ?i+n*) (+ (NAME (- n 1)) (funcall f ?i+n*))))) (NAME ?c))", 0},
 	{"ltf", "r", "let-lambda", "(let ((f (lambda (a) ?i+a*))) ?r+f&)", 2},
 	{"lmc", "r", "lambda-form-call", "((lambda (a b) ?a+a+b* ?r+a+b*) ?i ?i)", 2},
 	{"lmf", "r", "funcall-lambda", "(funcall (lambda (a b) ?r+a+b*) ?i ?i)", 0},
@@ -123,6 +126,10 @@ var templateSrc = []struct {
 	{"dot", "r", "dotimes", "(dotimes (i ?c ?r+i!) ?a+i!* ?a+i!*)", 4},
 	{"dt0", "r", "dotimes-zero", "(dotimes (i ?0 ?r+i!) ?a+i!*)", 0},
 	{"dtn", "a", "dotimes-no-result", "(dotimes (i ?c) ?a+i!*)", 0},
+	{"dlv", "l", "dolist-variable-named-like-the-list-variable", "(let ((i (list ?a ?a))) (list (dolist (i i ?a+i?) ?a+i?*) i))", 0},
+	{"dtv", "l", "dotimes-variable-named-like-the-count-variable", "(let ((i ?c)) (list (dotimes (i i ?a+i!) ?a+i!*) i))", 0},
+	{"dov", "l", "do-variable-named-like-an-outer-variable", "(let ((u ?1)) (list (do ((u u (+ u 1)) (v u u)) ((<= 3 u) (list u v)) ?a+u+v*) u))", 0},
+	{"dsv", "l", "do*-variable-named-like-an-outer-variable", "(let ((u ?1)) (list (do* ((u (+ u 1) (+ u 1)) (v u u)) ((<= 4 u) (list u v)) ?a+u+v*) u))", 0},
 	{"dop", "l", "do", "(do ((u 0 (+ u 1)) (v ?i u)) ((<= 2 u) (list u v ?a+u+v)) ?a+u+v*)", 2},
 	{"dok", "l", "do-variable-without-step", "(do ((u 0 (+ u 1)) (w ?i)) ((<= 2 u) (list u w)) ?a+u+w*)", 0},
 	{"dos", "l", "do*", "(do* ((u 0 (+ u 1)) (v ?i (* u 10))) ((<= 2 u) (list u v ?a+u+v)) ?a+u+v*)", 0},
